@@ -292,6 +292,9 @@ class StmtMixin:
                 ev = V(EXC, v.t, {"line": s.lineno, "note": "raise"})
             elif v.s == GLOB:
                 ev = exc_value(v.t.split(".")[-1], s.lineno, "raise")
+            elif isinstance(s.exc, ast.Call) and ast.unparse(s.exc.func).split(".")[-1] in self.hier.parent:
+                # the constructor call is under a contract (e.g. it records its argument in ghost state): the class is still known
+                ev = exc_value(ast.unparse(s.exc.func).split(".")[-1], s.lineno, "raise")
             else:
                 ev = exc_value("Exception*", s.lineno, "raise of a computed value")
             outs.append(Out("raise", s1, ev))
